@@ -15813,6 +15813,10 @@ type PathAttributePmsiTunnel struct {
 }
 
 func (p *PathAttributePmsiTunnel) DecodeFromBytes(data []byte, options ...*MarshallingOption) error {
+	// An attribute that fails to decode with a treat-as-withdraw class error
+	// stays in the message, which is still logged and serialised: keep it
+	// renderable on every error path below.
+	p.TunnelID = &DefaultPmsiTunnelID{}
 	value, err := p.PathAttribute.DecodeFromBytes(data, options...)
 	if err != nil {
 		return err
